@@ -107,9 +107,11 @@ func (data *Data) Serialize(fr *FrameHeader) {
 	fr.SetFlags(
 		fr.Flags().with(FlagEndStream, data.endStream).with(FlagPadded, data.hasPadding))
 
-	if data.hasPadding {
-		data.b = http2utils.AddPadding(data.b)
-	}
-
+	// Built in the header's buffer: padding data.b itself changes what Data()
+	// returns, and a second WriteTo would wrap the first padding in another.
 	fr.setPayload(data.b)
+
+	if data.hasPadding {
+		fr.payload = http2utils.AddPadding(fr.payload)
+	}
 }
